@@ -46,10 +46,11 @@ pub struct Elem {
     pub inline: Option<(String, String, String)>,
     #[serde(default)]
     pub children: Vec<Node>,
-    /// an inline element sharing a wrapper line of this unwrap-block element:
-    /// (true = on the closing wrapper line, false = on the opening one)
+    /// an inline element sharing a line with this unwrap-block element's wrapper or tag:
+    /// 0 = end of the opening wrapper line, 1 = start of the closing wrapper line,
+    /// 2 = after the opening tag on its line, 3 = before the closing tag on its line
     #[serde(default)]
-    pub wrapper_inline: Option<(bool, Box<Elem>)>,
+    pub wrapper_inline: Option<(u8, Box<Elem>)>,
     /// carries the unwrap-block attribute but has no wrapper lines and at most one
     /// line between its tags: can never be unwrapped (its children are still cleaned)
     #[serde(default)]
@@ -166,9 +167,11 @@ impl Elem {
         let tight_ok = doc.ds.ends_with('<') && doc.de.starts_with('>');
         let sp = if self.style & 1 != 0 || !tight_ok { " " } else { "" };
         let attrs = self.attrs();
-        let multiline = self.style & 0x40 != 0 && self.unwrap.is_none() && self.inline.is_none();
+        let multiline = self.style & 0x40 != 0 && self.inline.is_none();
         if multiline {
-            // README style: a tag spread over several lines, continuation lines prefixed " * "
+            // a tag spread over several lines; continuation lines either README style (prefixed
+            // " * ") or plainly indented (style bit 0x20)
+            let lead = if self.style & 0x20 != 0 { "  " } else { " * " };
             let mut s = format!("{}{}{}", doc.ds, " ", self.tag_name(doc));
             for (i, a) in attrs.iter().enumerate() {
                 if i == 0 {
@@ -176,13 +179,13 @@ impl Elem {
                 } else {
                     s.push('\n');
                     s.push_str(&self.indent);
-                    s.push_str(" * ");
+                    s.push_str(lead);
                 }
                 s.push_str(a);
             }
             s.push('\n');
             s.push_str(&self.indent);
-            s.push_str(" * ");
+            s.push_str(lead);
             s.push_str(&doc.de);
             s
         } else {
@@ -212,29 +215,38 @@ fn render_nodes(doc: &Doc, nodes: &[Node], out: &mut Vec<String>) {
                     out.push(format!("{}{}{}{}{}{}", e.indent, pre, e.open_tag(doc), body, e.close_tag(doc), suf));
                 } else {
                     // a multi-line open tag contributes several lines
+                    let n_open = e.open_tag(doc).split('\n').count();
                     for (i, l) in e.open_tag(doc).split('\n').enumerate() {
+                        let tail = match &e.wrapper_inline {
+                            Some((2, x)) if i + 1 == n_open => format!(" {}", x.inline_core(doc)),
+                            _ => String::new(),
+                        };
                         if i == 0 {
-                            out.push(format!("{}{}", e.indent, l));
+                            out.push(format!("{}{}{}", e.indent, l, tail));
                         } else {
-                            out.push(l.to_string());
+                            out.push(format!("{}{}", l, tail));
                         }
                     }
                     if let Some((w, _)) = &e.unwrap {
                         match &e.wrapper_inline {
-                            Some((false, x)) => out.push(format!("{} {}", w, x.inline_core(doc))),
+                            Some((0, x)) => out.push(format!("{} {}", w, x.inline_core(doc))),
                             _ => out.push(w.clone()),
                         }
                     }
                     render_nodes(doc, &e.children, out);
                     if let Some((_, w)) = &e.unwrap {
                         match &e.wrapper_inline {
-                            Some((true, x)) => {
+                            Some((1, x)) => {
                                 let t = w.trim_start();
                                 let lead = &w[..w.len() - t.len()];
                                 out.push(format!("{}{} {}", lead, x.inline_core(doc), t));
                             }
                             _ => out.push(w.clone()),
                         }
+                    }
+                    if let Some((3, x)) = &e.wrapper_inline {
+                        out.push(format!("{}{} {}", e.indent, x.inline_core(doc), e.close_tag(doc)));
+                        continue;
                     }
                     out.push(format!("{}{}", e.indent, e.close_tag(doc)));
                 }
@@ -638,8 +650,11 @@ impl<'a, 'b> DocGen<'a, 'b> {
         let mut style = self.rng.below(32) as u8;
         let inline = self.p.allow_inline && self.rng.chance(1, 8);
         let unwrap = !inline && self.p.allow_unwrap && self.rng.chance(1, 3);
-        if self.p.allow_multiline_tag && !inline && !unwrap && self.rng.chance(1, 12) {
+        if self.p.allow_multiline_tag && !inline && self.rng.chance(1, 10) {
             style |= 0x40;
+            if self.rng.chance(1, 2) {
+                style |= 0x20;
+            }
         }
         let skip = self.p.allow_skip && self.rng.chance(1, 12);
         let mut e = Elem {
@@ -697,7 +712,7 @@ impl<'a, 'b> DocGen<'a, 'b> {
             if self.p.allow_wrapper_layouts && self.budget > 0 && self.rng.chance(1, 5) {
                 self.budget -= 1;
                 if let Some(x) = self.inline_elem("", ds, de, false) {
-                    e.wrapper_inline = Some((self.rng.chance(1, 2), Box::new(x)));
+                    e.wrapper_inline = Some((self.rng.below(4) as u8, Box::new(x)));
                 }
             }
         } else {
